@@ -195,7 +195,12 @@ def laws(j, rng, n):
         dd = np.array([rng.gauss(0, 1) for _ in range(6)])
         dd = dd / np.linalg.norm(dd) * dm
         band2 = "norm(d)=1e%d" % int(math.floor(math.log10(dm)))
-        for name, fn, tol in (("tr2delta(delta2tr(d))=d", lambda: b.tr2delta(b.delta2tr(dd)) - dd, 1e-9 * dm + 1e-18),
+        for name, fn, tol in (("log(exp d)=d", lambda: np.asarray(b.trlog(b.trexp(dd), twist=True), dtype=float) - dd, 1e-7 * dm + 1e-18),
+                              ("tr2delta(exp d)~log(exp d) (first order)",
+                               lambda: b.tr2delta(b.trexp(dd)) - np.asarray(b.trlog(b.trexp(dd), twist=True), dtype=float), 2.0 * dm * dm + 1e-15),
+                              ("SE3.delta~Twist3(X).S (first order)",
+                               lambda: SE3().delta(SE3(b.trexp(dd), check=False)) - np.asarray(Twist3(SE3(b.trexp(dd), check=False)).S, dtype=float), 2.0 * dm * dm + 1e-15),
+                              ("tr2delta(delta2tr(d))=d", lambda: b.tr2delta(b.delta2tr(dd)) - dd, 1e-9 * dm + 1e-18),
                               ("tr2delta(exp d)~d (first order)", lambda: b.tr2delta(b.trexp(dd)) - dd, 2.0 * dm * dm + 1e-15),
                               ("SE3.Delta~exp(d)", lambda: SE3.Delta(dd).A - b.trexp(dd), 2.0 * dm * dm + 1e-15)):
             cid = ("law", name, band2)
@@ -206,6 +211,30 @@ def laws(j, rng, n):
                 continue
             if not (d <= tol):
                 j.fail("%s|%s|%s|law-violated" % (PID, name, band2), {"kind": "law", "law": name, "distance": d, "tol": tol, "d": dd.tolist()}, cid)
+            else:
+                j.ok(cid)
+    # the adjoint is a homomorphism over COMPOSED TWISTS too: rotations about parallel / anti-parallel axes through
+    # different points (they do not commute), coaxial ones, a screw with a translation, general position
+    uz = np.array([0.0, 0.0, 1.0])
+    ug = np.array([0.6, 0.0, 0.8])
+    pairs = {"parallel-axes": (Twist3.Revolute(uz, [0, 0, 0]) * 0.7, Twist3.Revolute(uz, [1, 0, 0]) * 0.4),
+             "anti-parallel-axes": (Twist3.Revolute(ug, [0, 1, 0]) * 0.9, Twist3.Revolute(-ug, [2, -1, 0.5]) * 0.5),
+             "coaxial": (Twist3.Revolute(ug, [1, 2, 3]) * 0.3, Twist3.Revolute(ug, [1, 2, 3]) * -1.1),
+             "parallel-scaled": (Twist3.Revolute(2 * uz, [0, 2, 0]) * 1.3, Twist3.Revolute(uz, [-1, 0, 4]) * 0.2),
+             "revolute-prismatic": (Twist3.Revolute(uz, [1, 1, 0]) * 0.8, Twist3.Prismatic([0, 0, 1]) * 2.0),
+             "general": (Twist3([0.3, -1.0, 0.5, 0.2, 0.4, -0.6]), Twist3([1.0, 0.2, -0.7, -0.5, 0.1, 0.3]))}
+    for tag_, (S1, S2) in pairs.items():
+        for name, lhs, rhs in (("Ad(S1*S2)=Ad(S1)Ad(S2)", lambda: (S1 * S2).Ad(), lambda: S1.Ad() @ S2.Ad()),
+                               ("(S1*S2).SE3=S1.SE3*S2.SE3", lambda: (S1 * S2).SE3().A, lambda: (S1.SE3() * S2.SE3()).A),
+                               ("exp(ad(S1*S2))=Ad(S1)Ad(S2)", lambda: series_expm((S1 * S2).ad()), lambda: S1.Ad() @ S2.Ad())):
+            cid = ("law", name, tag_)
+            try:
+                d = float(np.max(np.abs(np.asarray(lhs(), dtype=float) - np.asarray(rhs(), dtype=float))))
+            except Exception as ex:  # noqa: BLE001
+                j.fail("%s|%s|%s|raised-%s" % (PID, name, tag_, type(ex).__name__), {"kind": "law", "law": name, "pair": tag_}, cid)
+                continue
+            if not (d <= 1e-7 * 25):
+                j.fail("%s|%s|%s|law-violated" % (PID, name, tag_), {"kind": "law", "law": name, "pair": tag_, "distance": d}, cid)
             else:
                 j.ok(cid)
     # planar maps and the SO(3) adjoint
